@@ -17,8 +17,10 @@ u1 == heap[1]
 d0 == NumD(u1)
 
 \* asymmetric integer coefficient matrices / vectors, distinct per (t, r)
-CoefMat(K, d, t) == Q([a \in 1..K |-> [b \in 1..d |-> ((3 * a + 5 * b + 2 * t + a * b * t) % 7) - 3]], 1)
-CoefVec(K, t) == Q([a \in 1..K |-> ((2 * a + 3 * t) % 5) - 2], 1)
+\* coefficients: integers and halves mixed (an all-integer menu hides dtype / truncation slips; all-integer cases keep the
+\* bit-exact comparison of the exact mode)
+CoefMat(K, d, t) == Q([a \in 1..K |-> [b \in 1..d |-> ((3 * a + 5 * b + 2 * t + a * b * t) % 7) - 3]], IF t % 3 = 2 THEN 2 ELSE 1)
+CoefVec(K, t) == Q([a \in 1..K |-> ((2 * a + 3 * t) % 5) - 2], 1 + (t % 2))
 
 \* mode codes 1..9 = (matrix mode, vector mode)
 MM(c) == <<"none", "shared", "per">>[((c - 1) \div 3) + 1]
